@@ -9,9 +9,11 @@ const VOCAB: [&str; 30] = [
     "startpos", "fen", "moves", "go", "depth", "nodes", "movetime", "wtime", "btime", "winc", "binc", "infinite",
     "searchmoves", "ponder", "movestogo", "mate", "e2e4", "quit",
 ];
-const JUNK: [&str; 18] = [
+const JUNK: [&str; 25] = [
     "", "-1", "0", "1", "255", "256", "18446744073709551616", "340282366920938463463374607431768211456", "+5", "1e3", "abc", "0x10", "e7e8k",
     "E2E4", "e2e9", "ä", "name", "value",
+    // characters whose lower-case form has another UTF-8 length (an offset computed before lower-casing does not fit after it)
+    "ȺȾ", "İ", "K", "ẞx", "ÉÄ", "Ω", "aȺ",
 ];
 
 fn rand_game(rng: &mut Rng, fen: &str, max: u64) -> (Vec<String>, Vec<Board>) {
@@ -311,7 +313,8 @@ pub fn uci_stream(args: &[String]) {
                 5 => "isready".to_string(),
                 6 => "ucinewgame".to_string(),
                 7 => {
-                    let opts = ["setoption name Hash value 16", "setoption name value", "setoption value x name y", "setoption name Move Overhead value 30", "setoption name", "setoption", "setoption name Threads", "setoption name A value", "stop", "uci",
+                    let opts = ["setoption name ȺȾ value 1", "setoption name İ value x", "setoption name KK value 2", "setoption name ẞ Ⱥ value Ω", "setoption name aȺ", "setoption name x value ȺȾİ",
+                        "setoption name Hash value 16", "setoption name value", "setoption value x name y", "setoption name Move Overhead value 30", "setoption name", "setoption", "setoption name Threads", "setoption name A value", "stop", "uci",
                         "position", "position fen", "position fen 8/8/8/8/8/8/8/8 w - -", "position fen rnbqkbnr/pppppppp/8/8/8/8/PPPPPPPP/RNBQKBNR w KQkq -", "setoption x name", "setoption Hash name", "setoption value name",
                         "position moves e2e4", "position startpos moves", "position startpos e2e4", "setoption name Hash value", "isready extra tokens"];
                     opts[rng.below(opts.len() as u64) as usize].to_string()
